@@ -102,6 +102,16 @@ func genEmuConfig(r *rand.Rand) procdrv.EmuConfig {
 	c.GnbGTP = pick(r, net.IP(rbytes(r, 4)), ipv4Class(r)).String()
 	c.AmfIP, c.StgIP = "192.0.2."+fmt.Sprint(1+r.Intn(250)), "192.0.2."+fmt.Sprint(1+r.Intn(250))
 	c.AmfPort, c.StgPort = 1024+r.Intn(60000), 1024+r.Intn(60000)
+	if r.Intn(8) == 0 { // an address VALUE that reads as address-and-port: the port is the port key's business, the address key holds a string
+		shaped := func(ip string) string {
+			return pick(r, ip+":"+fmt.Sprint(1024+r.Intn(60000)), "[2001:db8::"+fmt.Sprint(1+r.Intn(9))+"]:"+fmt.Sprint(1024+r.Intn(60000)), "["+ip+"]", ip+":")
+		}
+		if r.Intn(2) == 0 {
+			c.AmfIP = shaped(c.AmfIP)
+		} else {
+			c.StgIP = shaped(c.StgIP)
+		}
+	}
 	c.DLIface, c.ULIface = "verif-none0", "verif-none1"
 	c.UeNumber = 1
 	if r.Intn(5) == 0 { // two keys that happen to hold the same value are still two keys
